@@ -319,12 +319,7 @@ func c17Run(c *core.Ctx, idx int) {
 			stackage.SetDefaultConditionLogger(custom)
 			stackage.SetDefaultStackLogLevel(stackage.AllLogLevels)
 			stackage.SetDefaultConditionLogLevel(stackage.AllLogLevels)
-			defer func() {
-				stackage.SetDefaultStackLogger("none")
-				stackage.SetDefaultConditionLogger("none")
-				stackage.SetDefaultStackLogLevel(0)
-				stackage.SetDefaultConditionLogLevel(0)
-			}()
+			defer RestoreProcDefaults()
 			c.Count("calls.with-package-defaults")
 		}
 		recv, isStack, isCond := c17Receiver(k.state)
@@ -492,7 +487,45 @@ func c17Lifecycle(c *core.Ctx, r *core.Rng) {
 			s.SetReadOnly(true)
 		}
 		lenBefore := s.Len()
-		err := s.Free()
+		// other handles of the same instance: a copy of the handle, and a parent that holds it. Free zeroes the handle
+		// it is called on; it is not a licence for calls through the other handles to panic
+		held := s
+		parent := stackage.And().Push("p", s)
+		mutexed := r.Chance(1, 3)
+		var err error
+		if mutexed && !ro {
+			// Free issued from inside a user closure that runs while the instance's own lock is held
+			s.SetMutex()
+			scratch := s
+			var inner error
+			s.SetPushPolicy(func(...any) error { inner = scratch.Free(); return nil })
+			s.Push("trigger")
+			lenBefore = -1
+			if inner != nil || scratch.IsInit() || !scratch.IsZero() {
+				c.Violatef("Free:inside-closure", map[string]any{"ro": false}, "Free called from a push policy (lock held by the same call): err=%v IsInit=%v", inner, scratch.IsInit())
+				return
+			}
+			c.Count("lifecycle.free.inside-closure")
+		}
+		err = s.Free()
+		if !ro {
+			var where, msg, site string
+			if p, m, si := Guard(func() { where, msg, site = Battery(held) }); p {
+				where, msg, site = "battery", m, si
+			}
+			if where == "" {
+				if p, m, si := Guard(func() { where, msg, site = Battery(parent) }); p {
+					where, msg, site = "battery(parent)", m, si
+				} else if where != "" {
+					where += " (parent)"
+				}
+			}
+			if where != "" {
+				c.Violatef("Free:other-handle-panics", map[string]any{"ro": false}, "after Free through one handle, %s through another handle of the same Stack panicked (%s): %s", where, site, msg)
+				return
+			}
+			c.Count("lifecycle.free.other-handles-usable")
+		}
 		if ro {
 			if err == nil || !s.IsInit() || s.IsZero() || s.Len() != lenBefore {
 				c.Violatef("Free:read-only", map[string]any{"ro": true}, "Free on a read-only Stack: err=%v IsInit=%v Len=%d", err, s.IsInit(), s.Len())
@@ -526,7 +559,20 @@ func c17Lifecycle(c *core.Ctx, r *core.Rng) {
 		if ro {
 			cd.SetReadOnly(true)
 		}
+		heldC := cd
+		parentC := stackage.And().Push("p", cd)
 		err := cd.Free()
+		if !ro {
+			where, msg, site := condBattery(heldC)
+			if where == "" {
+				where, msg, site = Battery(parentC)
+			}
+			if where != "" {
+				c.Violatef("Free:other-handle-panics:cond", map[string]any{"ro": false}, "after Free through one handle, %s through another handle of the same Condition panicked (%s): %s", where, site, msg)
+				return
+			}
+			c.Count("lifecycle.free.other-handles-usable")
+		}
 		if ro {
 			if err == nil || !cd.IsInit() {
 				c.Violatef("Free:read-only:cond", map[string]any{"ro": true}, "Free on a read-only Condition: err=%v IsInit=%v", err, cd.IsInit())
